@@ -11,6 +11,7 @@ import (
 	"path/filepath"
 	"strconv"
 	"strings"
+	"sync"
 
 	sms "github.com/hujm2023/go-sms-protocol"
 	"github.com/hujm2023/go-sms-protocol/cmpp/cmpp20"
@@ -186,13 +187,18 @@ func VerifDir() string {
 	return "/verif"
 }
 
-var loaded *Tables
+var (
+	loaded   *Tables
+	loadOnce sync.Once
+)
 
-// Load reads spec/wire_tables.json (once per process).
+// Load reads spec/wire_tables.json (once per process; safe for concurrent use).
 func Load() *Tables {
-	if loaded != nil {
-		return loaded
-	}
+	loadOnce.Do(func() { loaded = load() })
+	return loaded
+}
+
+func load() *Tables {
 	b, err := os.ReadFile(filepath.Join(VerifDir(), "spec", "wire_tables.json"))
 	if err != nil {
 		panic("verifmon harness: cannot read wire tables: " + err.Error())
@@ -246,7 +252,6 @@ func Load() *Tables {
 	if len(goTypes) != 57 || len(goTypes) != len(constructors) {
 		panic(fmt.Sprintf("verifmon harness: expected 57 PDU Go types, tables have %d (constructors %d)", len(goTypes), len(constructors)))
 	}
-	loaded = ts
 	return ts
 }
 
